@@ -111,6 +111,11 @@ def run(ctx, rep):
 
     # ------------------------------------------------------------ R15.e the limit that is enforced is the resolved one
     rep.rule('R15.e', 'the limit a topic stores is the resolved one (ServerDefault replaced by the configured default, too-small limits rejected) at every site that writes it: create, update and load', floor=3, analysis='A9 provenance forms')
+    resolved_limit_forms(ctx, rep, 'R15.e')
+
+
+def resolved_limit_forms(ctx, rep, rid):
+    """shared with C05: create, update and load store the limit resolved by the same function (what the runtime accepts, the loader accepts)"""
     import forms as forms_
     T = 'server::streaming::topics::topic::Topic'
     want = {'<server::streaming::topics::storage::FileTopicStorage as server::streaming::storage::TopicStorage>::load': 'Topic::get_max_topic_size(state.max_topic_size, topic.config)',
@@ -120,12 +125,12 @@ def run(ctx, rep):
         seen.add(fn)
         exp = want.get(fn)
         ok = exp is not None and form == exp
-        rep.ob('R15.e', fn, 'max_topic_size = resolved limit', ok, '%s:%s' % (b_.file, ln), None if ok else
+        rep.ob(rid, fn, 'max_topic_size = resolved limit', ok, '%s:%s' % (b_.file, ln), None if ok else
                ('Topic.max_topic_size is assigned `%s`; the resolved limit is `%s` (an unresolved ServerDefault is never full, so the configured default limit stops being enforced)' % (form, exp) if exp else
                 'Topic.max_topic_size is written by an unconfirmed function (`%s`)' % form))
     for fn in want:
         if fn not in seen:
-            rep.ob('R15.e', fn, 'max_topic_size = resolved limit', False, None, 'the assignment of the resolved limit expected in this function is missing')
-    forms_.check_aggregates(ctx, rep, 'R15.e', {T + '::create': {T: {'max_topic_size': 're:^(Topic::get_max_topic_size\\(max_topic_size, config\\)|max_topic_size)$'}}})
+            rep.ob(rid, fn, 'max_topic_size = resolved limit', False, None, 'the assignment of the resolved limit expected in this function is missing')
+    forms_.check_aggregates(ctx, rep, rid, {T + '::create': {T: {'max_topic_size': 're:^(Topic::get_max_topic_size\\(max_topic_size, config\\)|max_topic_size)$'}}})
     # create receives the resolved value from Stream::create_topic
-    forms_.check_call_args(ctx, rep, 'R15.e', {'server::streaming::streams::stream::Stream::create_topic': {'Topic::create': ['re:.*, Topic::get_max_topic_size\\(max_topic_size, self\\.config\\), replication_factor$']}}, skip_self=False, cd=1)
+    forms_.check_call_args(ctx, rep, rid, {'server::streaming::streams::stream::Stream::create_topic': {'Topic::create': ['re:.*, Topic::get_max_topic_size\\(max_topic_size, self\\.config\\), replication_factor$']}}, skip_self=False, cd=1)
